@@ -155,9 +155,19 @@ impl LoggerHandle {
     /// Replaces the active `LogSpecification` and pushes the previous one to a stack.
     #[allow(clippy::missing_panics_doc)]
     pub fn push_temp_spec(&mut self, new_spec: LogSpecification) {
+        #[cfg(flexi_logger_verif)]
+        crate::verif_hooks::sync_op(crate::verif_hooks::Op::Acquire(
+            "spec_lock",
+            crate::verif_hooks::id_of(&self.writers_handle.spec),
+        ));
         self.writers_handle
             .spec_stack
             .push(self.writers_handle.spec.read().unwrap(/* catch and expose error? */).clone());
+        #[cfg(flexi_logger_verif)]
+        crate::verif_hooks::sync_op(crate::verif_hooks::Op::Release(
+            "spec_lock",
+            crate::verif_hooks::id_of(&self.writers_handle.spec),
+        ));
         self.set_new_spec(new_spec);
     }
 
@@ -172,6 +182,11 @@ impl LoggerHandle {
         new_spec: S,
     ) -> Result<(), FlexiLoggerError> {
         let new_spec = LogSpecification::parse(new_spec)?;
+        #[cfg(flexi_logger_verif)]
+        crate::verif_hooks::sync_op(crate::verif_hooks::Op::Acquire(
+            "spec_lock",
+            crate::verif_hooks::id_of(&self.writers_handle.spec),
+        ));
         self.writers_handle.spec_stack.push(
             self.writers_handle
                 .spec
@@ -179,6 +194,11 @@ impl LoggerHandle {
                 .map_err(|_| FlexiLoggerError::Poison)?
                 .clone(),
         );
+        #[cfg(flexi_logger_verif)]
+        crate::verif_hooks::sync_op(crate::verif_hooks::Op::Release(
+            "spec_lock",
+            crate::verif_hooks::id_of(&self.writers_handle.spec),
+        ));
         self.set_new_spec(new_spec);
         Ok(())
     }
